@@ -166,7 +166,7 @@ def _same_array(g, w):
     return None
 
 
-def _same_quantity(g, w, lowp_in=False):
+def _same_quantity(g, w, lowp_in=False, scale=0.0):
     """Reflected forms (Array op Vector, k op Vector) are computed through the Vector's own reflected methods
     (-(v-a), 1/(v/a), result in the Vector's unit): compared as physical quantities with a few ulp."""
     if not isinstance(g, osyris.Array):
@@ -180,7 +180,7 @@ def _same_quantity(g, w, lowp_in=False):
     rtol = 1e-5 if lowp else 1e-9
     with np.errstate(all="ignore"):
         a, b = um.to_cgs(g.values, gu), um.to_cgs(w.values, wu)
-        ok = (np.abs(a - b) <= rtol * np.maximum(np.abs(a), np.abs(b))) | (a == b) | (np.isnan(a) & np.isnan(b))
+        ok = (np.abs(a - b) <= rtol * (np.maximum(np.abs(a), np.abs(b)) + scale)) | (a == b) | (np.isnan(a) & np.isnan(b))
     if not np.all(ok):
         return f"values {np.asarray(g.values).tolist()} [{g.unit}] != {np.asarray(w.values).tolist()} [{w.unit}]"
     return None
@@ -270,12 +270,22 @@ def lifting(case, r):
     if not isinstance(got, osyris.Vector):
         r.bad(["result-not-vector", group, op], f"{type(got).__name__}; {case}")
         return
+    addsub_scale = 0.0
+    if group == "reflected" and op in "+-":
+        # sums may cancel: the admissible error scales with the operands, not with the result
+        with np.errstate(all="ignore"):
+            mags = [np.nanmax(np.abs(um.to_cgs(np.asarray(c.values, dtype=np.float64), um.from_pint(c.unit))), initial=0.0)
+                    for c in comps]
+            rv = rhs if not isinstance(rhs, (int, float)) else osyris.Array(values=rhs)
+            rq = rv if hasattr(rv, "unit") else osyris.Array(rv)
+            mags.append(np.nanmax(np.abs(um.to_cgs(np.asarray(rq.values, dtype=np.float64), um.from_pint(rq.unit))), initial=0.0))
+        addsub_scale = float(np.nanmax([m for m in mags if np.isfinite(m)] or [0.0]))
     gc = list(got._xyz.values())
     if len(gc) != len(want):
         r.bad(["component-count", group, op], f"{len(gc)} vs {len(want)}")
         return
     for i, (g, w) in enumerate(zip(gc, want)):
-        why = _same_quantity(g, w, lowp_in) if group == "reflected" else _same_array(g, w)
+        why = _same_quantity(g, w, lowp_in, addsub_scale) if group == "reflected" else _same_array(g, w)
         if why:
             r.bad(["component-differs", group, op], f"component {'xyz'[i]}: {why}; {case}")
             return
